@@ -61,6 +61,26 @@ CLAIMED = {
    note=TB + "The repository's pre-existing defects here (XOR no-op, 2DIV assert, DIV/MOD SIGFPE, UB shifts) were repaired by fix: commits; see known_findings.json.",
    technique="Coq proofs per opcode + exhaustive differential correspondence over the operand set",
    ref="DESIGN.md §2 C17"),
+ "C07": dict(
+   text="Theorems (Properties/C07.v): a data push decodes back to (push opcode, data) with the direct/PUSHDATA1/2/4 thresholds at 75/76, 255/256, "
+        "65535/65536; for every int64 n the emitted operation pushes the script-number encoding of n and is a minimal push; for every hex "
+        "literal the emitted operation places EXACTLY the given bytes on the stack in minimal form; a compiled sequence of well-formed values "
+        "decodes back to the operation sequence; a bracketed sub-script is the push of its compiled body. Tie: Value::parse_args + "
+        "Value::serialize (btcc's main) on every opcode name (both spellings), all OP_xNN, int boundaries of every 1-8 byte encoding, ALL "
+        "1-byte and (thorough) 2-byte hex literals, nesting 0..8, split brackets, comments; plus the real btcc binary on a sample.",
+   note=TB + "Classification of strings into literal classes (atoll re-print rule, GetOpCode table generated from the source, TryHex) is modelled in Value.v and tied by correspondence; there is no theorem 'every canonical decimal string classifies as its integer' (examples only).",
+   technique="Coq proofs on the push/number encoders and decoder + differential correspondence of the tokeniser/classifier",
+   ref="DESIGN.md §2 C07"),
+ "C13": dict(
+   text="Theorems (Properties/C13.v, TxTheorems.v): whatever --tx/--txin accepts re-serialises to exactly the given bytes with all fields in "
+        "range; serialise-then-parse returns the same transaction (non-empty vin; the zero-input ambiguity of the format is stated with "
+        "witnesses); txid preimage = witness-stripped encoding; every strict prefix of a valid encoding is rejected; compact sizes round-trip "
+        "and are canonical; amounts with <= 8 fractional digits parse to exactly value*10^8, more digits only if zeros. Tie: "
+        "Instance::parse_transaction / parse_input_transaction (with main's exception guards) on real, generated and mutated transactions, "
+        "amount strings and input selections; txid/wtxid compared through the Gallina SHA-256.",
+   note=TB + "SHA-256 is a Gallina transcription (Hashes.v) compared with the C++ by execution. The exponent branch of ParseFixedPoint is modelled and tested, not covered by a general theorem.",
+   technique="Coq round-trip proofs on the wire codec + differential correspondence incl. structure-aware mutations",
+   ref="DESIGN.md §2 C13"),
 }
 
 NOT_YET = {}
